@@ -30,7 +30,7 @@ func configsFor(prop string, tier int) []string {
 		if tier == 1 {
 			return []string{"default", "noasm", "force32bit", "appengine"}
 		}
-		return []string{"default", "noasm"}
+		return []string{"default", "noasm", "force32bit"}
 	}
 	return []string{"default"}
 }
@@ -320,11 +320,30 @@ func checkProperty(prop string, tier int, tierName string, re *regexp.Regexp, cf
 	known := loadKnownFindings("/verif/known_findings.txt")
 	unconfirmed := 0
 	replayed := 0
+	// a change to the code under test can turn hundreds of obligations of one harness site satisfiable (one per
+	// case vector); each native replay costs a `go test` run, so a site is replayed until it is confirmed once,
+	// and at most three times, and the whole check replays at most 60 models
+	replayTries := map[string]int{}
+	replayDone := map[string]bool{}
+	skippedReplays := 0
 	for _, ob := range allObs {
 		if ob.Kind == ObReach || ob.Verdict != "sat" {
 			continue
 		}
+		rk := fmt.Sprintf("%s/%s@%s/%s", ob.Harness, ob.Kind, ob.Pos, obCfg[ob])
+		if replayDone[rk] || replayTries[rk] >= 3 || replayed >= 60 {
+			skippedReplays++
+			if !replayDone[rk] {
+				unconfirmed++
+				undischarged = append(undischarged, fmt.Sprintf("%s: solver model not replayed (replay budget of this site / check used up) (%s)", ob.Name, ob.Msg))
+			}
+			continue
+		}
+		replayTries[rk]++
 		v, confirmed, detail := replayObligation(prop, ob, obCfg[ob], overlay)
+		if confirmed {
+			replayDone[rk] = true
+		}
 		replayed++
 		if !confirmed {
 			unconfirmed++
@@ -464,6 +483,7 @@ func checkProperty(prop string, tier int, tierName string, re *regexp.Regexp, cf
 			"unknown_or_error":         nUnk,
 			"reachability_witnesses":   nReachOK,
 			"unconfirmed_models":       unconfirmed,
+			"models_not_replayed":      skippedReplays,
 			"undischarged":             undischarged,
 			"engine_faults":            faults,
 			"harnesses":                harnessCount,
